@@ -105,7 +105,7 @@ m("shape-index-out-of-range-ok", ["C05"], ["SHAPE-ACCEPT|constant_index|out-of-r
   "                None => Ok(()),")
 
 # ---- PIPE
-m("pipe-sub-operands-swapped", ["C01", "C19"], ["PIPE|emission|IR::Sub"], LUA,
+m("pipe-sub-operands-swapped", ["C01", "C19"], ["PIPE|emission|IR::Sub", "CHECKER-AGREES|emission|Sub"], LUA,
   'IR::Sub(t, a, b) => ii!(self, t, "({} - {})", a, b),', 'IR::Sub(t, a, b) => ii!(self, t, "({} - {})", b, a),')
 m("pipe-less-becomes-le", ["C01"], ["PIPE|emission|IR::Less"], LUA,
   'IR::Less(t, a, b) => ii!(self, t, "({} < {})", a, b),', 'IR::Less(t, a, b) => ii!(self, t, "({} <= {})", a, b),')
